@@ -104,6 +104,53 @@ def rand_doc(r, maxlines=8) -> str:
     return s
 
 
+LEAVES_S = [["# h"], ["h", "==="], ["t", "---"], ["```", "code", "", "more", "```"], ["~~~ info", "x", "~~~"], ["    code"], ["***"],
+            ["<div>", "x", "</div>"], ["[r]: /u 'T'"], ["|a|b|", "|-|-|", "|1|2|"], ["<!-- c -->"], ["a", "b"], ["[r]"], ["```", "open"]]
+
+
+def struct_lines(r, depth=2) -> list[str]:
+    """structured, mostly-valid document: leaves and containers (quotes, lists with 1-3 items holding sub-documents),
+    separated by blank lines most of the time; returns its lines"""
+    out: list[str] = []
+    for bi in range(r.randint(1, 3)):
+        k = r.random()
+        if depth > 0 and k < 0.28:
+            sub = struct_lines(r, depth - 1)
+            form = r.choice(["> ", "> ", ">", ">  "])
+            blk = [(form + ln) if ln else ">" for ln in sub]
+            if r.random() < 0.15:
+                blk.append(r.choice(["lazy", "  lazy more"]))
+        elif depth > 0 and k < 0.56:
+            mk = r.choice(["-", "*", "+", "1.", "3)", "10."])
+            sp = r.choice([1, 1, 2, 3])
+            W = len(mk) + sp
+            blk = []
+            loose = r.random() < 0.4
+            for it in range(r.randint(1, 3)):
+                sub = struct_lines(r, depth - 1)
+                if sub and sub[0].startswith("    "):
+                    sub = ["x"] + sub
+                item = [mk + " " * sp + sub[0]] + [(" " * W + ln) if ln else "" for ln in sub[1:]]
+                if blk and loose:
+                    blk.append("")
+                blk += item
+                if mk[0].isdigit():
+                    mk = str(int(mk[:-1]) + 1) + mk[-1]
+        elif k < 0.75:
+            blk = [rand_inline(r, r.randint(1, 3)) or "p"] + ([r.choice(WORDS)] if r.random() < 0.3 else [])
+            blk = [b.replace("\n", " ") for b in blk]
+        else:
+            blk = list(r.choice(LEAVES_S))
+        if out and r.random() < 0.8:
+            out.append("")
+        out += blk
+    return out
+
+
+def struct_doc(r, depth=2) -> str:
+    return "\n".join(struct_lines(r, depth)) + "\n"
+
+
 def rand_malformed(r, maxlen=24) -> str:
     n = r.randint(0, maxlen)
     out = []
@@ -207,13 +254,15 @@ def mutate(r, s: str) -> str:
 
 
 def doc_stream(r, n: int, maxlines=8):
-    """Mixed stream: 45 % G-doc, 15 % delimiter runs, 20 % mutated spec/fixture inputs, 10 % spec verbatim,
-    10 % malformed."""
+    """Mixed stream: 33 % G-doc, 12 % structured nested documents, 15 % delimiter runs, 20 % mutated spec/fixture
+    inputs, 10 % spec verbatim, 10 % malformed."""
     spec = spec_inputs()
     for _ in range(n):
         k = r.random()
-        if k < 0.45 or not spec:
+        if k < 0.33 or not spec:
             yield rand_doc(r, maxlines)
+        elif k < 0.45:
+            yield struct_doc(r, 2 if maxlines < 7 else 3)
         elif k < 0.6:
             yield rand_delims(r)
         elif k < 0.8:
